@@ -90,8 +90,15 @@ WPStep(w, m, fromP0) ==
      /\ fromP' = fromP0 \o p.out
      /\ outs' = r.out
 
+\* see P2P.tla: canonical nonces in the liveness configuration
+Canon(r, ownNonce, peerNonce) ==
+  IF ~QuietTicks \/ r.st.nonce = ownNonce THEN r
+  ELSE LET k == CHOOSE k \in 1..3 : k # ownNonce /\ k # peerNonce
+       IN [st |-> [r.st EXCEPT !.nonce = k, !.nonceCtr = k],
+           out |-> [i \in 1..Len(r.out) |-> IF r.out[i].m.t = "Register" THEN [r.out[i] EXCEPT !.m.n = k] ELSE r.out[i]]]
+
 CCStep(w, m, fromCw) ==
-  LET r == CCHandle(cc[w], m)
+  LET r == Canon(CCHandle(cc[w], m), cc[w].nonce, wp.b[w].nonce)
       toC == Msgs(r.out, "c")
   IN /\ cc' = [cc EXCEPT ![w] = r.st]
      /\ c2p' = [c2p EXCEPT ![w] = @ (+) BagOf(Msgs(r.out, "pc"))]
@@ -118,8 +125,8 @@ PCRecvLocal ==
   /\ UNCHANGED <<cc, life, c2p, fromC, bud>>
 
 TickPC ==
-  /\ ~wp.failed /\ bud.tp < TP /\ TimerGate
-  /\ bud' = [bud EXCEPT !.tp = @ + 1]
+  /\ ~wp.failed /\ (QuietTicks \/ bud.tp < TP) /\ TimerGate
+  /\ bud' = IF QuietTicks THEN bud ELSE [bud EXCEPT !.tp = @ + 1]
   /\ WPStep("", Tick, fromP)
   /\ last' = [a |-> "TickPC", w |-> "", m |-> Tick]
   /\ UNCHANGED <<cc, life, c2p, fromC>>
@@ -138,15 +145,15 @@ CCRecvLocal(w) ==
   /\ UNCHANGED <<wp, life, p2c, fromP, bud>>
 
 TickCC(w) ==
-  /\ life[w] = "up" /\ ~cc[w].failed /\ bud.tc < TC /\ TimerGate
-  /\ bud' = [bud EXCEPT !.tc = @ + 1]
+  /\ life[w] = "up" /\ ~cc[w].failed /\ (QuietTicks \/ bud.tc < TC) /\ TimerGate
+  /\ bud' = IF QuietTicks THEN bud ELSE [bud EXCEPT !.tc = @ + 1]
   /\ CCStep(w, Tick, fromC[w])
   /\ last' = [a |-> "TickCC", w |-> w, m |-> Tick]
   /\ UNCHANGED <<wp, life, p2c, fromP>>
 
 ElapseGap(w) ==
-  /\ life[w] = "up" /\ cc[w].gapLim /\ bud.g < TG /\ TimerGate
-  /\ bud' = [bud EXCEPT !.g = @ + 1]
+  /\ life[w] = "up" /\ cc[w].gapLim /\ (QuietTicks \/ bud.g < TG) /\ TimerGate
+  /\ bud' = IF QuietTicks THEN bud ELSE [bud EXCEPT !.g = @ + 1]
   /\ cc' = [cc EXCEPT ![w].gapLim = FALSE]
   /\ last' = [a |-> "ElapseGap", w |-> w, m |-> NoMsg] /\ outs' = <<>>
   /\ UNCHANGED <<wp, life, c2p, p2c, fromP, fromC, env>>
@@ -251,6 +258,7 @@ Fair ==
        /\ WF_vars(\E m \in BagToSet(c2p[w]) : PCRecvNet(w, m))
        /\ WF_vars(\E m \in BagToSet(p2c[w]) : CCRecvNet(w, m))
        /\ SF_vars(TickCC(w)) /\ SF_vars(ElapseGap(w))
+       /\ WF_vars(Join(w))                 \* a worker that is going to join does join
   /\ SF_vars(TickPC)
 LiveSpec == Init /\ [][Next]_vars /\ Fair
 EventuallyAllDone == <>AllDone
